@@ -29,7 +29,7 @@ type vfP2POp struct {
 
 func (o vfP2POp) String() string {
 	switch o.Kind {
-	case "sub", "setself", "setother":
+	case "sub", "setself", "setother", "setthird":
 		return fmt.Sprintf("%s(u%d,%q)", o.Kind, o.Actor, o.Mode)
 	case "note":
 		return fmt.Sprintf("note(u%d,%s,%d)", o.Actor, o.What, o.Seq)
@@ -65,6 +65,8 @@ func vfP2PAlphabet(thorough bool) []vfP2POp {
 		}
 	}
 	ops = append(ops, vfP2POp{Kind: "pub", Actor: 2}, vfP2POp{Kind: "setself", Actor: 2, Mode: "JRWPA"}, vfP2POp{Kind: "setpriv", Actor: 2}, vfP2POp{Kind: "reload"})
+	// a participant tries to bring a third user in
+	ops = append(ops, vfP2POp{Kind: "setthird", Actor: 0, Mode: "JRWPA"}, vfP2POp{Kind: "setthird", Actor: 1, Mode: ""})
 	// a received-note sent by the user's other session, which is attached to 'me' only (the hub routes it)
 	ops = append(ops, vfP2POp{Kind: "wnote", Actor: 0, What: "recv", Seq: 1}, vfP2POp{Kind: "wnote", Actor: 1, What: "recv", Seq: 1})
 	return ops
@@ -100,6 +102,11 @@ func (t *vfTW) p2pRequest(o vfP2POp, n int) (string, *vfClient) {
 		return fmt.Sprintf(`{"set":{"id":"$ID","topic":"%s","sub":{"mode":"%s"}}}`, a, o.Mode), c
 	case "setother":
 		return fmt.Sprintf(`{"set":{"id":"$ID","topic":"%s","sub":{"user":"%s","mode":"%s"}}}`, a, peer, o.Mode), c
+	case "setthird":
+		if o.Mode == "" {
+			return fmt.Sprintf(`{"set":{"id":"$ID","topic":"%s","sub":{"user":"%s"}}}`, a, t.users[2].id()), c
+		}
+		return fmt.Sprintf(`{"set":{"id":"$ID","topic":"%s","sub":{"user":"%s","mode":"%s"}}}`, a, t.users[2].id(), o.Mode), c
 	case "leave":
 		return fmt.Sprintf(`{"leave":{"id":"$ID","topic":"%s"}}`, a), c
 	case "unsub":
